@@ -1,6 +1,5 @@
 from __future__ import annotations
 
-from collections import defaultdict
 from copy import deepcopy
 from types import MappingProxyType
 from typing import TYPE_CHECKING
@@ -59,7 +58,7 @@ class MolGraph:
             self._bond_attrs = deepcopy(mol_graph._bond_attrs)
         else:
             self._atom_attrs = {}
-            self._neighbors = defaultdict(set)
+            self._neighbors = {}
             self._bond_attrs = {}
 
     @property
@@ -179,6 +178,7 @@ class MolGraph:
         atom_type = PERIODIC_TABLE[atom_type]
 
         self._atom_attrs[atom] = {"atom_type": atom_type, **attr}
+        self._neighbors.setdefault(atom, set())
 
     def remove_atom(self, atom: AtomId):
         """Removes atom from graph.
@@ -289,8 +289,8 @@ class MolGraph:
         if atom1 == atom2:
             raise ValueError("An atom can not be bonded to itself")
         bond = Bond({atom1, atom2})
-        self._neighbors[atom1].add(atom2)
-        self._neighbors[atom2].add(atom1)
+        self._neighbors.setdefault(atom1, set()).add(atom2)
+        self._neighbors.setdefault(atom2, set()).add(atom1)
         self._bond_attrs[bond] = attr
 
     def remove_bond(self, atom1: AtomId, atom2: AtomId):
@@ -472,10 +472,12 @@ class MolGraph:
             mapping.get(atom, atom): attrs
             for atom, attrs in self._atom_attrs.items()
         }
-        neighbors = defaultdict(set, {
-            mapping.get(atom, atom): {mapping.get(n, n) for n in neighbors}
-            for atom, neighbors in self._neighbors.items()
-        })
+        neighbors = {
+            mapping.get(atom, atom): {
+                mapping.get(n, n) for n in self._neighbors.get(atom, ())
+            }
+            for atom in self._atom_attrs
+        }
 
         bond_attrs = {
             Bond({mapping.get(atom, atom) for atom in bond}): attrs
@@ -540,10 +542,10 @@ class MolGraph:
             for bond, attrs in self._bond_attrs.items()
             if new_atoms.issuperset(bond)
         }
-        neighbors = defaultdict(set, {
+        neighbors = {
             atom: {n for n in self._neighbors.get(atom, ()) if n in new_atoms}
             for atom in new_atoms
-        })
+        }
         new_graph = self.__class__()
         new_graph._atom_attrs = atom_attrs
         new_graph._neighbors = neighbors
@@ -603,8 +605,10 @@ class MolGraph:
             new_graph._atom_attrs.update(deepcopy(mol_graph._atom_attrs))
             new_graph._bond_attrs.update(deepcopy(mol_graph._bond_attrs))
 
-            for atom, neighbors in mol_graph._neighbors.items():
-                new_graph._neighbors[atom].update(neighbors)
+            for atom in mol_graph._atom_attrs:
+                new_graph._neighbors.setdefault(atom, set()).update(
+                    mol_graph._neighbors.get(atom, ())
+                )
 
         return new_graph
 
